@@ -130,6 +130,8 @@ class _Inliner:
         self.counter = 0
         self.inlined = []
         self.objs = {}          # synthetic receiver name -> ClassInfo of a helper object whose fields became locals
+        self.top = None
+        self.temps = set()
 
     def callee(self, call, scope):
         if not isinstance(call, ast.Call):
@@ -184,6 +186,7 @@ class _Inliner:
                         self._plain_class(self.mod.classes[v.func.value.func.id]):
                     self.counter += 1
                     tmp = '_t%d' % self.counter
+                    self.temps.add(tmp)
                     a = ast.Assign(targets=[ast.Name(id=tmp, ctx=ast.Store())], value=v.func.value)
                     ast.fix_missing_locations(ast.copy_location(a, s))
                     v.func.value = ast.copy_location(ast.Name(id=tmp, ctx=ast.Load()), v.func)
@@ -199,6 +202,14 @@ class _Inliner:
                 rest = out[i + 1:]
                 uses = [x for r in rest for x in ast.walk(r) if isinstance(x, ast.Name) and x.id == name]
                 ok = self._plain_class(ci) and all(isinstance(getattr(u, '_parent_inl', None), ast.Attribute) for u in self._mark_parents(rest, name))
+                # the name must stand for this object and nothing else: not a parameter, and every mention of it in the whole
+                # function is the assignment itself or lies in the statements that follow it in the same block
+                if ok and self.top is not None and name not in self.temps:
+                    params = {a_.arg for a_ in self.top.args.args + self.top.args.kwonlyargs + self.top.args.posonlyargs}
+                    everywhere = [x for x in ast.walk(self.top) if isinstance(x, ast.Name) and x.id == name]
+                    here = [x for r in rest for x in ast.walk(r) if isinstance(x, ast.Name) and x.id == name]
+                    if name in params or len(everywhere) != len(here) + 1:
+                        ok = False
                 stores = [x for r in rest for x in ast.walk(r) if isinstance(x, ast.Name) and x.id == name and isinstance(x.ctx, ast.Store)]
                 init = ci.methods['__init__'] if ok else None
                 if ok and not stores and len(s.value.args) <= len(init.params) - 1:
@@ -411,6 +422,7 @@ def inline_view(repo, f, depth=4, keep=()):
     ``view.origin`` is f, ``view.inlined`` the helpers pasted in (possibly empty)."""
     inl = _Inliner(repo, f, depth, keep)
     node = _clone(f.node)
+    inl.top = node
     node.body = inl.expand(node.body, depth, [f])
     set_parents(node)
     node._parent = getattr(f.node, '_parent', None)
